@@ -2,6 +2,8 @@
 pub mod model;
 pub mod rng;
 pub mod wire;
+pub mod gen;
 pub mod report;
 pub mod runner;
+pub mod streamcase;
 pub mod suites;
